@@ -195,6 +195,21 @@ def run(chk):
                found=str(degs))
         chk.ob("R19.1", W, "WulffConstruction._extract_wulff_from_dual_mesh", "vertices have degree 1 in the energies", degs["vertices"] == 1,
                fingerprint="vertices-degree", found=str(degs))
+        # a quantity that scales with the energies is not patched with an absolute number afterwards (a floor of 1e-6 on N.n, which goes like
+        # 1/e^2, changes every vertex once the energies are of order 1e3)
+        patched = []
+        for e in xv.events:
+            if e.kind not in ("store", "aug") or e.value is None:
+                continue
+            t = e.target.as_atom()
+            base = t[1].as_atom() if t and t[0] == "sub" else None
+            nm = base[1] if base and base[0] in ("local", "obj") and isinstance(base[1], str) else None
+            if nm in degs and degs[nm] not in (0, None):
+                dv_ = deg.of(e.value)
+                if dv_ != degs[nm]:
+                    patched.append(f"line {e.lineno}: {nm} (degree {degs[nm]}) [...] = {str(e.value)[:60]} (degree {dv_})")
+        chk.ob("R19.1", W, "WulffConstruction._extract_wulff_from_dual_mesh", "no intermediate that scales with the energies is overwritten with a value of "
+               "another degree (an absolute tolerance, a clamp to a constant)", not patched, fingerprint="no-absolute-patch", found=patched[:2])
         sx = {e.target.key(): e.value.key() for e in xv.events if e.kind == "store"}
         chk.ob("R19.1", W, "WulffConstruction._extract_wulff_from_dual_mesh", "those vertices are what the object exposes",
                sx.get("self.wulff_vertices") == "$vertices", found=sx.get("self.wulff_vertices"))
